@@ -679,6 +679,17 @@ impl World {
                 w.push_res(t, Res::Bool(b), None);
                 one(w)
             }
+            Op::LockL => {
+                w.push_res(t, Res::Unit, None);
+                one(w)
+            }
+            Op::LockT => {
+                // whether the attempt succeeds depends on the other threads
+                let mut a = w.clone();
+                a.push_res(t, Res::Bool(true), None);
+                w.push_res(t, Res::Bool(false), None);
+                vec![a, w]
+            }
             Op::Set(i) => {
                 w.flags |= 1 << i;
                 w.push_res(t, Res::Unit, None);
